@@ -550,6 +550,38 @@ func checkFoPair(c *Ctx, p foPair) {
 	} else {
 		r.OK("C04.d", p.label, "gofmt", p.label, "gofmt-idempotent")
 	}
+	// (h) the compiler's switch temporaries _vN come from a counter that runs through the file during emission:
+	// in order of first occurrence they are _v1, _v2, … — a generated function moved or pasted by hand keeps its old
+	// numbers, regeneration renumbers them
+	{
+		var order []int
+		seen := map[int]bool{}
+		var idents []*ast.Ident
+		ast.Inspect(gf, func(x ast.Node) bool {
+			if id, ok := x.(*ast.Ident); ok {
+				idents = append(idents, id)
+			}
+			return true
+		})
+		sort.Slice(idents, func(i, j int) bool { return idents[i].Pos() < idents[j].Pos() })
+		firstBad := token.NoPos
+		for _, id := range idents {
+			if len(id.Name) > 2 && id.Name[:2] == "_v" {
+				if k, err := strconv.Atoi(id.Name[2:]); err == nil && !seen[k] {
+					seen[k] = true
+					order = append(order, k)
+					if k != len(order) && firstBad == token.NoPos {
+						firstBad = id.Pos()
+					}
+				}
+			}
+		}
+		if firstBad == token.NoPos {
+			r.OK("C04.h", p.label, "temporaries", p.label, sprintf("%d switch temporaries are numbered _v1.. in file order", len(order)))
+		} else {
+			r.Bad("C04.h", p.label, "temporaries", c.Pos(fset, firstBad), sprintf("the switch temporaries of the generated file are not numbered in file order (first occurrences: %v): the compiler numbers them with a counter that runs through the file, so regeneration produces other names — a generated function was moved, pasted or edited by hand", order))
+		}
+	}
 	// expected declarations
 	var exp []expDecl
 	type letSeg struct {
@@ -777,6 +809,8 @@ func checkC04(c *Ctx) {
 	r.Rule("C04.b", "ordered declaration tables agree for every pair", 30)
 	r.Rule("C04.c", "per-definition literal sequences and construct counts agree", 400)
 	r.Rule("C04.c3", "per-definition ordered skeletons (identifiers outside type positions, operators, literals, if/match/not/pipe constructs) agree", 400)
+	r.Rule("C04.h", "the compiler-generated switch temporaries of every generated file are numbered _v1, _v2, … in file order (what the emission counter yields)", 30)
+	r.Rule("C04.lex", "the hand-written lexer of fc is the reviewed one: the checker's own Folang tokenizer, on which rules (b), (c), (c2), (c3), (g) stand, was written against it (change detection; a different lexer is undecided)", 15)
 	r.Rule("C04.d", "generated files are gofmt-idempotent", 30)
 	r.Rule("C04.g", "every source and interface file fc reads is a sequence of well-formed top-level items (no stray text, no stray comment terminator, package_info bodies are declaration lines)", 35)
 	r.Rule("C04.e", "samples/README.md and pkg/pkg_all.foi are what their recipes produce from the checked-in files", 2)
@@ -935,6 +969,26 @@ func checkC04(c *Ctx) {
 	checkTermSpecsOpt(c, "C04.lib", "pkg/sys", sp, false)
 	// the one declaration the compiler adds by itself (mirrored in the expected tables of (b))
 	if f := c.LoadFC("fc"); f != nil {
+		have := handWrittenDigests(f)
+		// (h) stands on the counter: its two hand-written functions are the reviewed ones
+		for _, name := range []string{"uniqueTmpVarName", "resetUniqueTmpCounter"} {
+			r.Check(have[name] != "" && have[name] == c01ReviewedGo[name], "C04.h", name, "typed-syntax", "fc/wrapper.go", "the counter function is the reviewed one",
+				"the function behind the _vN temporaries was edited since rule (h) was written against it: what numbering regeneration yields is not decided")
+		}
+		for _, name := range c04LexerFunctions {
+			want, ok := c01ReviewedGo[name]
+			got, ok2 := have[name]
+			switch {
+			case !ok:
+				r.Undecided("C04.lex", name, "typed-syntax", "fc/wrapper.go", "lexer function without a reviewed digest")
+			case !ok2:
+				r.Undecided("C04.lex", name, "typed-syntax", "fc/wrapper.go", "a reviewed lexer function no longer exists: the checker's tokenizer was written against it")
+			case got != want:
+				r.Undecided("C04.lex", name, "typed-syntax", "fc/wrapper.go", "the lexer function was edited since the checker's own tokenizer was written against it (canonical typed-syntax digest "+got+", reviewed "+want+"): whether every shipped source still tokenises as the checker assumes — and whether fc still reads its own sources — is not decided")
+			default:
+				r.OK("C04.lex", name, "typed-syntax", "fc/wrapper.go", "canonical digest "+got+" is the reviewed one")
+			}
+		}
 		c.checkPins(f, "C04.imp", c04ImportPins)
 		if v, ok := f.M.Main().Types.Scope().Lookup("frtImportPath").(*types.Var); ok {
 			init := globalInit(f.Prog, v)
@@ -947,6 +1001,10 @@ func checkC04(c *Ctx) {
 		}
 	}
 }
+
+// the hand-written lexer (fc/wrapper.go)
+var c04LexerFunctions = []string{"Token.end", "isAlnum", "isAlpha", "isCharAt", "isNeighborLT", "isNumber", "isStringAt", "newOneCharToken", "newStLikeToken", "newToken",
+	"nextToken", "scanIdentifierToken", "scanIntImmToken", "scanRawStringLiteralToken", "scanSpaceToken", "scanStringLiteralToken", "scanTokenAt", "searchForward"}
 
 var c04ImportPins = []pin{
 	{"RootStmtsToGo", "nf", `strings.AppendTail("\n", strings.Concat("\n\n", slice.Map(RootStmtToGo, addFrtImportIfNecessary(p0))))`, "the statement list is emitted in order after the import adjustment"},
